@@ -372,6 +372,13 @@ func (h *Handshaker) ReplayBlocks(
 	// First handle edge cases and constraints on the storeBlockHeight and storeBlockBase.
 	switch {
 	case storeBlockHeight == 0:
+		if appBlockHeight > stateBlockHeight {
+			// nothing is stored yet, but the app has committed blocks this node knows
+			// nothing about (e.g. the node's data was reset and the app's was not): the
+			// app hash alone cannot tell, an app whose hash did not move would get the
+			// same heights executed on it again
+			return appHash, sm.ErrAppBlockHeightTooHigh{CoreHeight: stateBlockHeight, AppHeight: appBlockHeight}
+		}
 		assertAppHashEqualsOneFromState(appHash, state)
 		return appHash, nil
 
